@@ -191,16 +191,18 @@ def binW : Nat → Nat → Nat → Int → Nat → List Nat → List Nat →
       | .error e => .error e
       | .ok (g', inp', file') => binW f (nbin - nbit) result g' NBITPERLONG inp' file'
 
+/-- the head of `uvar_get`: `if not nbitget: gbuffer = word_get(); nbitget = NBITPERLONG` -/
+def uvarStart (w : WSt) : Except Err (Int × Nat × List Nat × List Nat) :=
+  if w.nbit = 0 then
+    match wordGet w.inp w.file with
+    | .error e => .error e
+    | .ok (g, inp, file) => .ok (g, NBITPERLONG, inp, file)
+  else .ok (w.gbuf, w.nbit, w.inp, w.file)
+
 /-- `uvar_get(nbin)`.  `F` is the fuel of the `while True:` loop: any bound on the number of bits
     left in the stream (a constant of the whole run, so that no length is recomputed per call). -/
 def uvarW (F : Nat) (nbin : Nat) (w : WSt) : Except Err (Nat × WSt) :=
-  let start : Except Err (Int × Nat × List Nat × List Nat) :=
-    if w.nbit = 0 then
-      match wordGet w.inp w.file with
-      | .error e => .error e
-      | .ok (g, inp, file) => .ok (g, NBITPERLONG, inp, file)
-    else .ok (w.gbuf, w.nbit, w.inp, w.file)
-  match start with
+  match uvarStart w with
   | .error e => .error e
   | .ok (g, nbit, inp, file) =>
     match unaryW F g nbit 0 inp file with
